@@ -156,3 +156,36 @@ theorem C13_relay_running_reaches_handler :
     runChain off (chainOf Gen.SoftwareRelay.sendChains "FTPClient") = (false, ["set:_active"]) := by decide
 
 end Primaite.C13
+
+namespace Primaite.C13
+open Primaite.Relay
+
+/-- a RUNNING FTP client handed an FTP packet: the three tests its `receive` makes on the packet as inputs -/
+def ftpEnv (noStatus portOk quitOk : Bool) : Env :=
+  { canAct := true, isType := fun _ => true, res := fun _ => false,
+    cond := fun c =>
+      if c = "payload.status_code is None" then noStatus
+      else if c = "payload.ftp_command is FTPCommand.PORT and payload.status_code is FTPStatusCode.OK" then portOk
+      else if c = "payload.ftp_command is FTPCommand.QUIT and payload.status_code is FTPStatusCode.OK" then quitOk
+      else false }
+
+/-- **what a RUNNING FTP client does with a server's answer** (the connection bookkeeping of the relay, on the translated code, every
+combination of the tests): an answer without a status code is refused; otherwise the packet is processed and accepted, a connection
+is added exactly for a successful PORT and terminated exactly for a successful QUIT -/
+theorem C13_ftp_client_bookkeeping (a b c : Bool) :
+    let r := runChain (ftpEnv a b c) (chainOf Gen.SoftwareRelay.receiveChains "FTPClient")
+    (a = true → r = (false, ["set:_active"])) ∧
+    (a = false → r.1 = true ∧ r.2.contains "_process_ftp_command" = true ∧
+      r.2.contains "add_connection" = b ∧ r.2.contains "terminate_connection" = c) := by
+  cases a <;> cases b <;> cases c <;> decide
+
+/-- **what a RUNNING FTP server does with a packet**: one that already carries a status code (an answer) is ignored, a request is
+processed and accepted -/
+theorem C13_ftp_server_requests_only (answered : Bool) :
+    let env : Env := { canAct := true, isType := fun _ => true, res := fun _ => false,
+                       cond := fun c => if c = "payload.status_code is not None" then answered else false }
+    runChain env (chainOf Gen.SoftwareRelay.receiveChains "FTPServer") =
+      if answered then (false, []) else (true, ["_process_ftp_command"]) := by
+  cases answered <;> decide
+
+end Primaite.C13
